@@ -61,6 +61,13 @@ def check(ctx):
             stamped = tables.literal(ctx, mod, dia[t])
             ok = all(isinstance(d, dict) and 'format' in d for d in stamped) and \
                 {tables.norm_fmt(w) for w in wfmts} == {d['format'] for d in stamped}
+            # a year below 1000 is written with four digits only through the padded spelling %04Y where the platform's strftime
+            # does not pad %Y itself: the format written with is the constant that the platform probe chooses, not the plain one
+            if any('%Y' in tables.norm_fmt(w) for w in wfmts):
+                run.check(any('%04Y' in w for w in wfmts), 'R16t', where(repo, s), cls.qualname,
+                          '%s %s: written with the platform-probed format (one of its values pads the year)' % (cls.name, t),
+                          '%s values are written with a format that never pads the year (%s): on platforms whose strftime does not pad '
+                          '%%Y a year below 1000 is written with fewer than four digits and cannot be parsed back' % (t, sorted(wfmts)))
             run.check(ok, 'R16t', where(repo, s), cls.qualname,
                       '%s %s: written %s / stamped %s' % (cls.name, t, sorted(wfmts), stamped),
                       '%s values are written as %s but the descriptor says %s: they cannot be parsed back'
